@@ -268,7 +268,10 @@ def main(argv=None):
         for x in audit_fail:
             known_a = None
             for k in known.get("findings", []):
-                if k["property"] == prop and k.get("audit") and re.search(k["audit"], x["name"]):
+                # an audit finding is keyed by check name + first failing cell + number of failing cells, so that any
+                # other / additional failing cell is still reported as a violation
+                if k["property"] == prop and k.get("audit") and re.search(k["audit"], x["name"]) and \
+                        re.search(k.get("detail", ""), x.get("detail", "")) and x.get("violating_cells") == k.get("cells", x.get("violating_cells")):
                     known_a = k
             if known_a:
                 print("KNOWN-FINDING: property=%s %s" % (prop, known_a["what"]))
